@@ -37,13 +37,14 @@ IDef(n, fl) ==
   /\ gl' = [dm \in BOOLEAN |-> [gl[dm] EXCEPT ![cur][Key(dm, n)] = DefVal(cur, n, NextT(cur, n))]]
 IInNs == InNs /\ UNCHANGED gl
 IRequireAs == RequireAs /\ UNCHANGED gl
+IAliasSelf == AliasSelf /\ UNCHANGED gl
 IRefer(n) ==
   /\ (V(Other(cur), n).ex /\ ~Private(Other(cur), n) /\ n \notin refers[cur]) \/ ~req[cur]   \* skip pure no-ops
   /\ Refer(n) /\ UNCHANGED gl
 IAlterRoot(n) == AlterRoot(n) /\ UNCHANGED gl        \* alter-var-root changes the Var, never the module global
 
 INext == \/ \E n \in Names, fl \in Flags : IDef(n, fl)
-         \/ IInNs \/ IRequireAs
+         \/ IInNs \/ IRequireAs \/ IAliasSelf
          \/ \E n \in Names : IRefer(n) \/ IAlterRoot(n)
 ISpec == IInit /\ [][INext]_ivars
 
@@ -72,7 +73,7 @@ IResolveIn(x, n, byalias) ==
 
 IResolve(n, sp, dm, ds) ==
   CASE sp = "bare" -> IResolveBare(n, dm, ds)
-    [] sp = "al"   -> IF alias[cur] THEN IResolveIn(Other(cur), n, TRUE) ELSE RCode(UNRES)
+    [] sp = "al"   -> IF alias[cur] # "-" THEN IResolveIn(alias[cur], n, TRUE) ELSE RCode(UNRES)
     [] sp = "fqA"  -> IResolveIn("A", n, FALSE)
     [] sp = "fqB"  -> IResolveIn("B", n, FALSE)
     [] sp = "loc"  -> <<"local", "-", "-">>
